@@ -1401,7 +1401,7 @@ def residual_normal(ref, y, rel=1e-6):
     return g / ref.geo.w
 
 
-def fd_estimate(phi, h0, eps, levels=7):
+def fd_estimate(phi, h0, eps, levels=7, fscale=0.0):
     """Directional derivative of ``t -> phi(t)`` at 0 from a ladder of
     central differences ``q_k = (phi(h_k) - phi(-h_k)) / (2 h_k)``,
     ``h_k = h0 2^-k``, with Romberg extrapolation.
@@ -1415,7 +1415,9 @@ def fd_estimate(phi, h0, eps, levels=7):
     order).
     """
     q, hs = [], []
-    fmax = 0.0
+    # ``fscale``: magnitude of the terms the values are assembled from
+    # (rounding scale when the value itself is a small difference)
+    fmax = float(fscale)
     for k in range(levels):
         h = h0 * 2.0 ** (-k)
         a, b = phi(h), phi(-h)
